@@ -35,6 +35,7 @@ from google.protobuf import descriptor_pb2
 from gapic.schema import imp
 from gapic.schema import naming
 from gapic.utils import cached_property
+from gapic.utils import IMPORTED_MODULE_NAMES
 from gapic.utils import RESERVED_NAMES
 
 # This class is a minor hack to optimize Address's __eq__ method.
@@ -164,7 +165,11 @@ class Address(BaseAddress):
         to users (albeit looking auto-generated).
         """
         # This is a minor optimization to prevent constructing a temporary set.
-        if self.module in self.collisions or self.module in RESERVED_NAMES:
+        if (
+            self.module in self.collisions
+            or self.module in RESERVED_NAMES
+            or self.module in IMPORTED_MODULE_NAMES
+        ):
             return "_".join(
                 (
                     "".join(
